@@ -68,15 +68,20 @@ MonoDir(k, p) ==
     [] k = "recip1" -> Sgn(p[1] - p[2])                  \* (num/den)^u : 1 -> num/den
     [] k = "invsq" -> -Sgn(p[2] - p[1])                  \* ab / (a + u (b - a))
     [] k = "radial" -> 1                                 \* R cbrt(u)
-\* x values (ranks) listed in ascending order of u are monotone in the stated direction
-MonotoneOK(dir, xs) ==
-  \A i \in 1..(Len(xs) - 1) :
-     CASE dir = 1 -> xs[i] <= xs[i + 1]
-       [] dir = -1 -> xs[i] >= xs[i + 1]
-       [] OTHER -> xs[i] = xs[i + 1]
-\* different grid classes (h) give strictly different values (the map is injective on the grid)
-StrictAcrossH(dir, us, xs) ==
-  dir # 0 => \A i, k \in DOMAIN us : (us[i][1] + 1 < us[k][1]) => xs[i] # xs[k]
+(* x values (ranks; us ascending) are monotone in the stated direction: across different grid
+   classes h always; inside one 2^-53 cluster only for the samplers that are compositions of
+   correctly rounded operations (fma, division) -- libm's log / exp / cbrt are not guaranteed
+   monotone in the last bit (glibc cbrt(3/8 - 2^-53) > cbrt(3/8)).  fin[i]: x[i] is finite. *)
+ClusterExact(k) == k \in {"uni", "invsq"}
+MonoPairsOK(k, dir, us, xs, fin) ==
+  \A i, m \in DOMAIN us :
+     (i < m /\ fin[i] /\ fin[m] /\ (us[i][1] < us[m][1] \/ ClusterExact(k))) =>
+        CASE dir = 1 -> xs[i] <= xs[m]
+          [] dir = -1 -> xs[i] >= xs[m]
+          [] OTHER -> xs[i] = xs[m]
+\* grid classes two or more apart give different values (no collapse of the map)
+InjectiveAcrossH(dir, us, xs, fin) ==
+  \A i, m \in DOMAIN us : (dir # 0 /\ fin[i] /\ fin[m] /\ us[i][1] + 1 < us[m][1]) => xs[i] # xs[m]
 
 \* --------------------------------------------------------- support predicates
 (* Supports are intervals, so "every sample is inside" is equivalent to a statement on the
@@ -86,9 +91,9 @@ StrictAcrossH(dir, us, xs) ==
    reversed reciprocal; cos theta; energy fractions); EnergyLossGaussian: (0, 2 mean].      *)
 HiOpen(dist) == dist \in {"uniform", "box", "reciprocal", "selector"}
 LoOpen(dist) == dist \in {"elgauss"}
-InSupport(dist, vmin, vmax, lo, hi, haslo, hashi) ==
-  /\ haslo => (IF LoOpen(dist) THEN lo < vmin ELSE lo <= vmin)
-  /\ hashi => (IF HiOpen(dist) /\ lo # hi THEN vmax < hi ELSE vmax <= hi)
+InSupport(loopen, hiopen, vmin, vmax, lo, hi, haslo, hashi) ==
+  /\ haslo => (IF loopen THEN lo < vmin ELSE lo <= vmin)
+  /\ hashi => (IF hiopen /\ lo # hi THEN vmax < hi ELSE vmax <= hi)
 
 \* ------------------------------------------------------------------ draw bounds
 \* canonical uniforms per sample; Fixed: exact count; otherwise [min, cap] with the cap an
@@ -112,7 +117,6 @@ DrawsOK(dist, dmin, dmax, dcap) ==
 ES == 16
 CQ == 8
 Big == 268435456                      \* 2^28
-Absd(x) == IF x < 0 THEN -x ELSE x
 (* dd <= |O - E|:  with E' = es/16 in [E, E + 1/16):  O >= E' gives O - E >= O - E';
    O < E' (then O < E, both being 16ths apart) gives E - O > E' - O - 1/16.              *)
 Contribution(o, es) ==
